@@ -38,7 +38,7 @@ Qed.
 
 
 Lemma dl_idle_true : forall s, dl_idle s = true -> dl s = DIdle.
-Proof. intros s H. unfold dl_idle in H. destruct (dl s); [reflexivity|discriminate|discriminate]. Qed.
+Proof. intros s H. unfold dl_idle in H. destruct (dl s); try discriminate; reflexivity. Qed.
 Lemma up_idle_true : forall s, up_idle s = true -> up s = UIdle.
 Proof. intros s H. unfold up_idle in H. destruct (up s); [reflexivity|discriminate|discriminate]. Qed.
 
@@ -147,7 +147,8 @@ Record SInv (c : cfg) (s : st) : Prop := {
                ph = PSync \/ (ph = PEnq /\ po p = 0);
   i_dl_hub : dl s <> DIdle -> hub s = true;
   i_hub_pc : hub s = true -> before_hub (pc s) = false;
-  i_pos : forall pos pep, ch s = Sub pos pep -> pos = g_pos s
+  i_pos : forall pos pep, ch s = Sub pos pep -> pos = g_pos s;
+  i_mark : dl s = DMark -> ps_entry s = false
 }.
 
 Lemma sinv_init : forall c, SInv c init.
@@ -192,7 +193,7 @@ Lemma sinv_step : forall c s l s', SInv c s -> step c s l = Some s' -> SInv c s'
 Proof.
   intros c s l s' I H.
   destruct l; unfold step in H; break_step H; inv_some H; boolfix.
-  all: destruct I as [Ifl Ibuf Iitems Idl Ihist Ipre Iei Iep Icws Icwn Ied Idh Ihp Ipos].
+  all: destruct I as [Ifl Ibuf Iitems Idl Ihist Ipre Iei Iep Icws Icwn Ied Idh Ihp Ipos Imk].
   all: try match goal with E : pc _ = _ |- _ => rewrite E in Ipre, Iep, Ihp; cbn [pre_start in_window before_hub] in Ipre, Iep, Ihp end.
   all: unfold emit_push; repeat match goal with |- context [if c_batch ?c0 then _ else _] => destruct (c_batch c0) eqn:? end.
   all: try rewrite !emits_eq; try rewrite !emit_eq.
@@ -233,6 +234,7 @@ Proof.
             unfold has_start in *; rewrite ?existsb_app; cbn [existsb] in *;
             repeat match goal with H : (_ || _)%bool = false |- _ => apply orb_false_iff in H; destruct H end;
             repeat match goal with H : _ = false |- _ => rewrite H end; reflexivity).
+  all: try (intros Hm; exfalso; assert (Hh : hub s = true) by (apply Idh; congruence); specialize (Ihp Hh); discriminate).
   (* LCheck on a publication *)
   pose proof (check_pub_fields c s p lag) as F. cbv zeta in F.
   destruct F as (F1 & F2 & F3 & F4 & F5 & F6 & F7 & F8 & F9 & F10 & F11 & F12 & F13 & F14 & F15 & F16).
@@ -244,6 +246,7 @@ Proof.
     match goal with E : dl s = DPub _ _ PCheck |- _ => destruct (Ied He _ _ _ E) as [X|[X _]]; discriminate end.
   - intros Hn. apply Idh. congruence.
   - intros pos' pep' Hc. eapply check_pub_pos; eauto.
+  - intros Hm. destruct (check_pub_dl c s p lag) as [E|[E _]]; rewrite E in Hm; discriminate.
 Qed.
 
 
